@@ -10,7 +10,7 @@ exactly one universe; every object held by a problem's collections is linked to 
 
 Model: `Model/Links.lean` (the repaired code).  Helper lemmas: `Lemmas/Links.lean`.
 Where the code refutes the full statement there is a `_refuted` theorem with a concrete witness history and a
-`_partial` theorem whose extra hypothesis is a named predicate (`NoClones`, `UnivOK`, a linked target).
+`_partial` theorem whose extra hypothesis is a named predicate (`HasUniverse`, `CompLinked`).
 -/
 namespace MontePyVerif.Links
 
@@ -29,25 +29,24 @@ theorem InvContain.ext {st st' : St} (h : InvContain st) (e : Ext st st') : InvC
 
 /-- `st'` has the same geometries and containers (only other fields moved) -/
 def Same (st st' : St) : Prop :=
-  st'.sshape = st.sshape ∧ ∀ x, (st'.cellOf x).geom = (st.cellOf x).geom ∧
+  ∀ x, (st'.cellOf x).geom = (st.cellOf x).geom ∧
     (st'.cellOf x).surfs = (st.cellOf x).surfs ∧ (st'.cellOf x).comps = (st.cellOf x).comps
 
-theorem Same.refl (st : St) : Same st st := ⟨rfl, fun _ => ⟨rfl, rfl, rfl⟩⟩
+theorem Same.refl (st : St) : Same st st := fun _ => ⟨rfl, rfl, rfl⟩
 
 theorem Same.trans {a b c : St} (h1 : Same a b) (h2 : Same b c) : Same a c :=
-  ⟨h2.1.trans h1.1, fun x => ⟨(h2.2 x).1.trans (h1.2 x).1, (h2.2 x).2.1.trans (h1.2 x).2.1,
-    (h2.2 x).2.2.trans (h1.2 x).2.2⟩⟩
+  fun x => ⟨(h2 x).1.trans (h1 x).1, (h2 x).2.1.trans (h1 x).2.1, (h2 x).2.2.trans (h1 x).2.2⟩
 
 theorem InvContain.same {st st' : St} (h : InvContain st) (e : Same st st') : InvContain st' := by
   intro c g hg
-  rw [(e.2 c).1] at hg
+  rw [(e c).1] at hg
   have := h c g hg
-  exact ⟨this.1, by rw [(e.2 c).2.1]; exact this.2.1, by rw [(e.2 c).2.2]; exact this.2.2⟩
+  exact ⟨this.1, by rw [(e c).2.1]; exact this.2.1, by rw [(e c).2.2]; exact this.2.2⟩
 
 theorem same_updCell (st : St) (c : ObjId) (f : CellSt → CellSt)
     (hf : ∀ cs, (f cs).geom = cs.geom ∧ (f cs).surfs = cs.surfs ∧ (f cs).comps = cs.comps) :
     Same st (st.updCell c f) := by
-  refine ⟨rfl, fun x => ?_⟩
+  intro x
   simp only [updCell_cellOf]
   split
   · subst_vars; exact hf _
@@ -55,7 +54,7 @@ theorem same_updCell (st : St) (c : ObjId) (f : CellSt → CellSt)
 
 theorem same_setLinked (st : St) (k : Kind) (o : ObjId) : Same st (st.setLinked k o) := by
   cases k
-  · exact ⟨rfl, fun x => linkCell_cellOf st o x⟩
+  · exact fun x => linkCell_cellOf st o x
   all_goals exact Same.refl _
 
 theorem same_setMembers (st : St) (k : Kind) (l : List ObjId) : Same st (st.setMembers k l) := by
@@ -72,11 +71,11 @@ theorem same_foldl {α : Type} (f : St → α → St) (hf : ∀ s x, Same s (f s
   | cons a t ih => intro st; exact (hf st a).trans (ih (f st a))
 
 theorem same_setMaterial (st : St) (c : ObjId) (m : Option ObjId) : Same st (setMaterial st c m).1 :=
-  (same_updCell st c (fun cs => { cs with mat := m }) (fun _ => ⟨rfl, rfl, rfl⟩)).trans ⟨rfl, fun _ => ⟨rfl, rfl, rfl⟩⟩
+  (same_updCell st c (fun cs => { cs with mat := m }) (fun _ => ⟨rfl, rfl, rfl⟩)).trans (fun _ => ⟨rfl, rfl, rfl⟩)
 
 theorem same_setUniverse (st : St) (c u : ObjId) : Same st (setUniverse st c u).1 :=
   (same_updCell st c (fun cs => { cs with univ := some u }) (fun _ => ⟨rfl, rfl, rfl⟩)).trans
-    ⟨rfl, fun _ => ⟨rfl, rfl, rfl⟩⟩
+    (fun _ => ⟨rfl, rfl, rfl⟩)
 
 /-- the edits that do not touch any geometry or container -/
 theorem same_step (st : St) (op : Op)
@@ -92,7 +91,7 @@ theorem same_step (st : St) (op : Op)
     split
     · exact same_foldl (fun s c => (setUniverse s c u).1) (fun s x => same_setUniverse s x u) cs st
     · exact Same.refl st
-  | setFill c u => exact same_updCell st c _ (fun _ => ⟨rfl, rfl, rfl⟩)
+  | setFill c u => exact same_updCell st c (fun cs => { cs with fill := u }) (fun _ => ⟨rfl, rfl, rfl⟩)
   | setNumber k o n =>
     simp only [step, setNumber]
     split
@@ -146,67 +145,58 @@ theorem inv_setGeom {st : St} {c : ObjId} {g : HS} (h : InvContain st) (hg : Goo
     have := h x g' hg''
     exact ⟨this.1, by simpa [hx] using this.2.1, by simpa [hx] using this.2.2⟩
 
-theorem setGeometry_inv {st : St} (c : ObjId) (g : HS) (h : InvContain st) (hn : NoClones st) :
-    InvContain (setGeometry st c g).1 ∧ (setGeometry st c g).1.sshape = st.sshape := by
+theorem setGeometry_inv {st : St} (c : ObjId) (g : HS) (h : InvContain st) :
+    InvContain (setGeometry st c g).1 := by
   unfold setGeometry
   have hs := addChildren_spec st c g
   generalize addChildren st c g = r at hs ⊢
   obtain ⟨st1, e⟩ := r
   cases e with
-  | some err => exact ⟨h.ext hs.1, hs.1.shape⟩
+  | some err => exact h.ext hs.1
   | none =>
     dsimp only at hs ⊢
-    have := hs.2 rfl hn
-    refine ⟨inv_setGeom (h.ext hs.1) ⟨setCell_allCell c g, ?_, ?_⟩, hs.1.shape⟩
+    have := hs.2 rfl
+    refine inv_setGeom (h.ext hs.1) ⟨setCell_allCell c g, ?_, ?_⟩
     · simpa using this.1
     · simpa using this.2
 
-theorem noClones_of_shape {st st' : St} (h : NoClones st) (e : st'.sshape = st.sshape) : NoClones st' := by
-  intro a b hab
-  rw [e] at hab
-  exact h a b hab
-
-theorem iopCell_inv {st : St} (u : Bool) (c : ObjId) (other : HS) (h : InvContain st) (hn : NoClones st) :
-    InvContain (iopCell u st c other).1 ∧ (iopCell u st c other).1.sshape = st.sshape := by
+theorem iopCell_inv {st : St} (u : Bool) (c : ObjId) (other : HS) (h : InvContain st) :
+    InvContain (iopCell u st c other).1 := by
   unfold iopCell
   split
-  · exact ⟨h, rfl⟩
+  · exact h
   · rename_i g hg
-    have hs := iop_spec u c other g st hn (h c g hg)
+    have hs := iop_spec u c other g st (h c g hg)
     generalize iop u st g other = res at hs ⊢
     obtain ⟨⟨st1, e1⟩, g1, ret⟩ := res
     cases e1 with
-    | some err => exact ⟨inv_setGeom (h.ext hs.1) hs.2, hs.1.shape⟩
+    | some err => exact inv_setGeom (h.ext hs.1) hs.2
     | none =>
       have h2 : InvContain (st1.updCell c (fun cs => { cs with geom := some g1 })) := inv_setGeom (h.ext hs.1) hs.2
-      have hn2 : NoClones (st1.updCell c (fun cs => { cs with geom := some g1 })) :=
-        noClones_of_shape hn hs.1.shape
       dsimp only at hs ⊢
       cases ret with
       | none =>
-        have := setGeometry_inv c g1 h2 hn2
-        exact ⟨this.1, this.2.trans hs.1.shape⟩
+        exact setGeometry_inv c g1 h2
       | some n =>
-        have := setGeometry_inv c n h2 hn2
-        exact ⟨this.1, this.2.trans hs.1.shape⟩
+        exact setGeometry_inv c n h2
 
-theorem iopAlias_inv {st : St} (u : Bool) (c : ObjId) (other : HS) (h : InvContain st) (hn : NoClones st) :
-    InvContain (iopAlias u st c other).1 ∧ (iopAlias u st c other).1.sshape = st.sshape := by
+theorem iopAlias_inv {st : St} (u : Bool) (c : ObjId) (other : HS) (h : InvContain st) :
+    InvContain (iopAlias u st c other).1 := by
   unfold iopAlias
   split
-  · exact ⟨h, rfl⟩
+  · exact h
   · rename_i g hg
-    have hs := iop_spec u c other g st hn (h c g hg)
+    have hs := iop_spec u c other g st (h c g hg)
     generalize iop u st g other = res at hs ⊢
     obtain ⟨⟨st1, e1⟩, g1, ret⟩ := res
-    exact ⟨inv_setGeom (h.ext hs.1) hs.2, hs.1.shape⟩
+    exact inv_setGeom (h.ext hs.1) hs.2
 
 theorem setChild_inv {st : St} (c : ObjId) (path : List Bool) (right : Bool) (new : HS)
-    (h : InvContain st) (hn : NoClones st) :
-    InvContain (setChild st c path right new).1 ∧ (setChild st c path right new).1.sshape = st.sshape := by
+    (h : InvContain st) :
+    InvContain (setChild st c path right new).1 := by
   unfold setChild
   split
-  · exact ⟨h, rfl⟩
+  · exact h
   · rename_i g hg
     have hgood := h c g hg
     split
@@ -218,14 +208,14 @@ theorem setChild_inv {st : St} (c : ObjId) (path : List Bool) (right : Bool) (ne
       generalize linkChild st (some c) new = lres at hs ⊢
       obtain ⟨⟨st1, e1⟩, n'⟩ := lres
       cases e1 with
-      | some err => exact ⟨h.ext hs.1, hs.1.shape⟩
+      | some err => exact h.ext hs.1
       | none =>
         have hn' : Good st1 c n' := by
           have h1 := hs.2.1 rfl
-          have h2 := hs.2.2 rfl hn
+          have h2 := hs.2.2 rfl
           simp only at h1 h2
           rw [h1]; exact h2
-        refine ⟨inv_setGeom (h.ext hs.1) (good_set g path _ (hgood.ext hs.1) ?_), hs.1.shape⟩
+        refine inv_setGeom (h.ext hs.1) (good_set g path _ (hgood.ext hs.1) ?_)
         cases right
         · exact good_bin.mpr ⟨rfl, hn', hr.ext hs.1⟩
         · exact good_bin.mpr ⟨rfl, hl.ext hs.1, hn'⟩
@@ -234,23 +224,22 @@ theorem setChild_inv {st : St} (c : ObjId) (path : List Bool) (right : Bool) (ne
       obtain ⟨hp, _⟩ := good_compl.mp hnode
       subst hp
       split
-      · exact ⟨h, rfl⟩
+      · exact h
       · have hs := linkChild_spec st c new
         generalize linkChild st (some c) new = lres at hs ⊢
         obtain ⟨⟨st1, e1⟩, n'⟩ := lres
         cases e1 with
-        | some err => exact ⟨h.ext hs.1, hs.1.shape⟩
+        | some err => exact h.ext hs.1
         | none =>
           have hn' : Good st1 c n' := by
             have h1 := hs.2.1 rfl
-            have h2 := hs.2.2 rfl hn
+            have h2 := hs.2.2 rfl
             simp only at h1 h2
             rw [h1]; exact h2
-          exact ⟨inv_setGeom (h.ext hs.1) (good_set g path _ (hgood.ext hs.1) (good_compl.mpr ⟨rfl, hn'⟩)),
-            hs.1.shape⟩
-    · exact ⟨h, rfl⟩
+          exact inv_setGeom (h.ext hs.1) (good_set g path _ (hgood.ext hs.1) (good_compl.mpr ⟨rfl, hn'⟩))
+    · exact h
 
-theorem registerDivider_spec (st : St) (c : ObjId) (ic : Bool) (d : ObjId) (hn : NoClones st) :
+theorem registerDivider_spec (st : St) (c : ObjId) (ic : Bool) (d : ObjId) :
     Ext st (registerDivider st (some c) ic d).1 ∧
     ((registerDivider st (some c) ic d).2 = none →
       (ic = true → d ∈ ((registerDivider st (some c) ic d).1.cellOf c).comps) ∧
@@ -268,16 +257,16 @@ theorem registerDivider_spec (st : St) (c : ObjId) (ic : Bool) (d : ObjId) (hn :
     simp only [Bool.false_eq_true, if_false]
     split
     · rename_i hm
-      exact ⟨Ext.refl st, fun _ => ⟨fun h => (by cases h), fun _ => (memS_iff hn _ _).mp hm⟩⟩
+      exact ⟨Ext.refl st, fun _ => ⟨fun h => (by cases h), fun _ => (memS_iff _ _ _).mp hm⟩⟩
     · have hs := cellSurfAppend_spec st c d
       exact ⟨hs.1, fun hok => ⟨fun h => (by cases h), fun _ => hs.2 hok⟩⟩
 
 theorem setDivider_inv {st : St} (c : ObjId) (path : List Bool) (ic : Bool) (d : ObjId)
-    (h : InvContain st) (hn : NoClones st) :
-    InvContain (setDivider st c path ic d).1 ∧ (setDivider st c path ic d).1.sshape = st.sshape := by
+    (h : InvContain st) :
+    InvContain (setDivider st c path ic d).1 := by
   unfold setDivider
   split
-  · exact ⟨h, rfl⟩
+  · exact h
   · rename_i g hg
     have hgood := h c g hg
     split
@@ -286,17 +275,17 @@ theorem setDivider_inv {st : St} (c : ObjId) (path : List Bool) (ic : Bool) (d :
       have hp : p = some c := by simpa [HS.allCell] using hnode.1
       subst hp
       split
-      · exact ⟨h, rfl⟩
-      · have hs := registerDivider_spec st c ic0 d hn
+      · exact h
+      · have hs := registerDivider_spec st c ic0 d
         generalize registerDivider st (some c) ic0 d = r at hs ⊢
         obtain ⟨st1, e1⟩ := r
         cases e1 with
-        | some err => exact ⟨h.ext hs.1, hs.1.shape⟩
+        | some err => exact h.ext hs.1
         | none =>
           dsimp only at hs
           have hg1 : (st1.cellOf c).geom = some g := by rw [hs.1.geom c]; exact hg
           simp only [replaceDivider, hg1]
-          refine ⟨inv_setGeom (h.ext hs.1) (good_set g path _ (hgood.ext hs.1) ?_), hs.1.shape⟩
+          refine inv_setGeom (h.ext hs.1) (good_set g path _ (hgood.ext hs.1) ?_)
           have hm := hs.2 rfl
           refine ⟨by simp [HS.allCell], ?_, ?_⟩
           · intro s hs'
@@ -309,87 +298,70 @@ theorem setDivider_inv {st : St} (c : ObjId) (path : List Bool) (ic : Bool) (d :
             · simp [HS.comps] at hs'
             · simp only [HS.comps, if_true, List.mem_singleton] at hs'
               subst hs'; exact hm.1 rfl
-    · exact ⟨h, rfl⟩
+    · exact h
 
-/-- **C16_contain_step** — every edit of the quantifier (geometry assignment, `&=`, `|=`, in-place `&=`/`|=`
+/-- **C16_contain_step** — every modelled operation (geometry assignment, `&=`, `|=`, in-place `&=`/`|=`
     through an alias, divider / left / right replacement, material, universe, claim, fill, renumbering,
-    collection insertion and removal, the materials / cells setters, `add_cell_children_to_problem`) keeps
-    `leaves ⊆ surfaces ∪ complements` for every cell, *also when the edit raises*, provided no two distinct
-    surfaces are `==` (`NoClones`, see `C16_contain_refuted`).  A refused geometry operand registers nothing
-    (repaired code), `remove_duplicate_surfaces` without duplicates touches no link. -/
-theorem C16_contain_step (st : St) (op : Op) (h : InvContain st) (hn : NoClones st) :
-    InvContain (step st op).1 ∧ NoClones (step st op).1 := by
-  have same : Same st (step st op).1 → InvContain (step st op).1 ∧ NoClones (step st op).1 :=
-    fun e => ⟨h.same e, noClones_of_shape hn e.1⟩
-  have geo : InvContain (step st op).1 ∧ (step st op).1.sshape = st.sshape →
-      InvContain (step st op).1 ∧ NoClones (step st op).1 := fun e => ⟨e.1, noClones_of_shape hn e.2⟩
+    collection insertion and removal, the materials / cells setters, `add_cell_children_to_problem`,
+    `remove_duplicate_surfaces` without duplicates) keeps `leaves ⊆ surfaces ∪ complements` for every cell,
+    *also when the edit raises*.  No side condition: since the identity repairs an equal copy of a surface is
+    just another surface (it is registered, or the edit is refused). -/
+theorem C16_contain_step (st : St) (op : Op) (h : InvContain st) : InvContain (step st op).1 := by
   cases op with
-  | setGeometry c g => exact geo (setGeometry_inv c g h hn)
-  | iopCell u c g => exact geo (iopCell_inv u c g h hn)
-  | iopAlias u c g => exact geo (iopAlias_inv u c g h hn)
-  | setDivider c p ic d => exact geo (setDivider_inv c p ic d h hn)
-  | setChild c p r g => exact geo (setChild_inv c p r g h hn)
-  | reupdate => exact same (same_step st _ trivial)
-  | setMaterial c m => exact same (same_step st _ trivial)
-  | setUniverse c u => exact same (same_step st _ trivial)
-  | claim u cs => exact same (same_step st _ trivial)
-  | setFill c u => exact same (same_step st _ trivial)
-  | setNumber k o n => exact same (same_step st _ trivial)
-  | append k o => exact same (same_step st _ trivial)
-  | remove k o => exact same (same_step st _ trivial)
-  | setMaterials ms => exact same (same_step st _ trivial)
-  | setCells cs => exact same (same_step st _ trivial)
-  | addCellChildren => exact same (same_step st _ trivial)
+  | setGeometry c g => exact setGeometry_inv c g h
+  | iopCell u c g => exact iopCell_inv u c g h
+  | iopAlias u c g => exact iopAlias_inv u c g h
+  | setDivider c p ic d => exact setDivider_inv c p ic d h
+  | setChild c p r g => exact setChild_inv c p r g h
+  | reupdate => exact h.same (same_step st _ trivial)
+  | setMaterial c m => exact h.same (same_step st _ trivial)
+  | setUniverse c u => exact h.same (same_step st _ trivial)
+  | claim u cs => exact h.same (same_step st _ trivial)
+  | setFill c u => exact h.same (same_step st _ trivial)
+  | setNumber k o n => exact h.same (same_step st _ trivial)
+  | append k o => exact h.same (same_step st _ trivial)
+  | remove k o => exact h.same (same_step st _ trivial)
+  | setMaterials ms => exact h.same (same_step st _ trivial)
+  | setCells cs => exact h.same (same_step st _ trivial)
+  | addCellChildren => exact h.same (same_step st _ trivial)
 
 /-- **C16_contain** — induction over edit histories: from any state that satisfies the invariant (the
-    empty pool does: `C16_contain_blank`) every history of edits leads to a state that satisfies it. -/
-theorem C16_contain (ops : List Op) : ∀ (st : St), InvContain st → NoClones st → InvContain (run st ops) := by
+    empty pool: `C16_contain_blank`; the cells of a file after `load`: `C16_load_contain`) every history of
+    operations leads to a state that satisfies it. -/
+theorem C16_contain (ops : List Op) : ∀ (st : St), InvContain st → InvContain (run st ops) := by
   induction ops with
-  | nil => intro st h _; exact h
-  | cons op t ih =>
-    intro st h hn
-    have := C16_contain_step st op h hn
-    exact ih (step st op).1 this.1 this.2
+  | nil => intro st h; exact h
+  | cons op t ih => intro st h; exact ih (step st op).1 (C16_contain_step st op h)
 
 /-- the pool before anything is read or assigned satisfies the invariant -/
-theorem C16_contain_blank (cnum snum mnum unum tnum : ObjId → Int) (sshape mshape : ObjId → Nat)
-    (strans : ObjId → Option ObjId) : InvContain (St.blank cnum snum mnum unum tnum sshape mshape strans) := by
+theorem C16_contain_blank (cnum snum mnum unum tnum : ObjId → Int)
+    (strans : ObjId → Option ObjId) : InvContain (St.blank cnum snum mnum unum tnum strans) := by
   intro c g hg
   simp [St.blank] at hg
 
-/-! ### non-vacuity and the refutation without `NoClones` -/
+/-! ### non-vacuity; an equal copy is now registered or refused -/
 
 def demoOps : List Op :=
   [.setGeometry 0 (.bin false (.leaf false 0 true none) (.leaf false 1 false none) none),
    .setDivider 0 [true] false 2]
 
-/-- three surfaces; with `clones`, `0` and `2` are clones (same number, same shape) -/
+/-- three surfaces; with `clones`, surface `2` has the number of surface `0` (an equal copy, or any other
+    surface with that number: since the identity repairs there is no difference) -/
 def demo (clones : Bool) : St :=
   St.blank (fun o => o + 1) (fun o => if clones && o == 2 then 1 else o + 1) (fun o => o + 1) (fun o => o)
-    (fun o => o + 1) (fun o => if clones && o == 2 then 0 else o) (fun o => o) (fun _ => none)
+    (fun o => o + 1) (fun _ => none)
 
-theorem demo_inv (b : Bool) : InvContain (demo b) := C16_contain_blank _ _ _ _ _ _ _ _
-
-
-example : NoClones (demo false) := by
-  intro a b hab
-  simpa [demo, St.blank] using hab
+theorem demo_inv (b : Bool) : InvContain (demo b) := C16_contain_blank _ _ _ _ _ _
 
 /-- a non-trivial history (assignment, then replacement of a leaf's divider by a third surface) reaches a
     state where the containers really were extended -/
 example : ((run (demo false) demoOps).cellOf 0).surfs = [0, 1, 2] := by decide
 
-/-- **C16_contain_refuted** — without `NoClones` the statement is false in the model as in the code:
-    replacing a divider by a distinct-but-equal surface is not registered (known finding C16-F1a). -/
-theorem C16_contain_refuted :
-    ¬ (∀ (st : St) (ops : List Op), InvContain st → InvContain (run st ops)) := by
-  intro hall
-  have h := hall (demo true) demoOps (demo_inv true)
-  have hg := h 0 _ (by decide : ((run (demo true) demoOps).cellOf 0).geom =
-    some (.bin false (.leaf false 0 true (some 0)) (.leaf false 2 false (some 0)) (some 0)))
-  have : (2 : ObjId) ∈ ((run (demo true) demoOps).cellOf 0).surfs := hg.2.1 2 (by decide)
-  revert this
-  decide
+/-- the history that refuted the statement before the identity repairs (former finding C16-F1a): the copy
+    with the taken number is *refused*, the geometry keeps its old divider -/
+example : (step (step (demo true) demoOps[0]).1 demoOps[1]).2 = some .numberConflict ∧
+    ((run (demo true) demoOps).cellOf 0).geom =
+      some (.bin false (.leaf false 0 true (some 0)) (.leaf false 1 false (some 0)) (some 0)) := by decide
 
 /-! ## reverse look-ups -/
 
@@ -399,25 +371,21 @@ theorem C16_reverse_surface (st : St) (s d : ObjId) :
   unfold surfaceCells
   split <;> simp_all [List.mem_filter]
 
-/-- … and, with identity membership (`NoClones`), stated against the forward links of the *geometry*:
+/-- … stated against the forward links of the *geometry*:
     a cell of the problem whose geometry uses `s` is in `s.cells` (needs the containment invariant). -/
 theorem C16_reverse_surface_geometry (st : St) (s d : ObjId) (g : HS) (h : InvContain st)
     (hl : st.slink s = true) (hd : d ∈ st.cells) (hg : (st.cellOf d).geom = some g) (hs : s ∈ g.surfs) :
     d ∈ surfaceCells st s := by
   rw [C16_reverse_surface]
-  refine ⟨hl, hd, ?_⟩
-  unfold memS
-  rw [List.any_eq_true]
-  exact ⟨s, (h d g hg).2.1 s hs, by simp [surfEq]⟩
+  exact ⟨hl, hd, (memS_iff _ _ _).mpr ((h d g hg).2.1 s hs)⟩
 
-theorem C16_reverse_surface_exact (st : St) (hn : NoClones st) (s d : ObjId) :
+theorem C16_reverse_surface_exact (st : St) (s d : ObjId) :
     d ∈ surfaceCells st s ↔ st.slink s = true ∧ d ∈ st.cells ∧ s ∈ (st.cellOf d).surfs := by
-  rw [C16_reverse_surface, memS_iff hn]
+  rw [C16_reverse_surface, memS_iff]
 
-/-- **C16_reverse_material** -/
+/-- **C16_reverse_material** (repaired code: `cell.material is self`) -/
 theorem C16_reverse_material (st : St) (m d : ObjId) :
-    d ∈ materialCells st m ↔ st.mlink m = true ∧ d ∈ st.cells ∧
-      ∃ m', (st.cellOf d).mat = some m' ∧ matEq st m' m = true := by
+    d ∈ materialCells st m ↔ st.mlink m = true ∧ d ∈ st.cells ∧ (st.cellOf d).mat = some m := by
   unfold materialCells
   split
   · simp only [List.mem_filter]
@@ -425,10 +393,12 @@ theorem C16_reverse_material (st : St) (m d : ObjId) :
     · rintro ⟨hd, hm⟩
       refine ⟨by assumption, hd, ?_⟩
       split at hm
-      · exact ⟨_, by assumption, hm⟩
+      · rename_i m' hm'
+        have : m' = m := by simpa using hm
+        rw [hm', this]
       · cases hm
-    · rintro ⟨_, hd, m', hm', he⟩
-      exact ⟨hd, by rw [hm']; exact he⟩
+    · rintro ⟨_, hd, hm'⟩
+      exact ⟨hd, by rw [hm']; simp⟩
   · simp_all
 
 /-- **C16_reverse_universe** (`==` on universes is identity) -/
@@ -469,14 +439,14 @@ theorem C16_reverse_refuted :
 theorem C16_reverse_setMaterial (st : St) (c m : ObjId) (hl : (st.cellOf c).link = true) (hc : c ∈ st.cells) :
     c ∈ materialCells (setMaterial st c (some m)).1 m := by
   rw [C16_reverse_material]
-  refine ⟨by simp [setMaterial, hl], hc, m, by simp [setMaterial], by simp [matEq]⟩
+  exact ⟨by simp [setMaterial, hl], hc, by simp [setMaterial]⟩
 
 /-- **C16_reverse_partial** — for a linked target the reverse look-up does yield every cell of the problem
     whose forward link points at it. -/
 theorem C16_reverse_partial (st : St) (m d : ObjId) (hl : st.mlink m = true) (hd : d ∈ st.cells)
     (hm : (st.cellOf d).mat = some m) : d ∈ materialCells st m := by
   rw [C16_reverse_material]
-  exact ⟨hl, hd, m, hm, by simp [matEq]⟩
+  exact ⟨hl, hd, hm⟩
 
 example : ∃ (st : St) (m d : ObjId), st.mlink m = true ∧ d ∈ st.cells ∧ (st.cellOf d).mat = some m :=
   ⟨run (demo false) [.append .cell 0, .append .material 1, .setMaterial 0 (some 1)], 1, 0, by decide, by decide, by decide⟩
@@ -849,8 +819,8 @@ theorem C16_linked (ops : List Op) : ∀ (st : St), InvLinked st → InvLinked (
     intro st h
     exact ih (step st op).1 (C16_linked_step st op h)
 
-theorem C16_linked_blank (cnum snum mnum unum tnum : ObjId → Int) (sshape mshape : ObjId → Nat)
-    (strans : ObjId → Option ObjId) : InvLinked (St.blank cnum snum mnum unum tnum sshape mshape strans) := by
+theorem C16_linked_blank (cnum snum mnum unum tnum : ObjId → Int)
+    (strans : ObjId → Option ObjId) : InvLinked (St.blank cnum snum mnum unum tnum strans) := by
   intro k o ho
   cases k <;> simp [St.blank, St.members] at ho
 
@@ -946,9 +916,6 @@ example : UniqS (demo false) := by simp [UniqS, demo, St.blank]
 
 /-! ## after `add_cell_children_to_problem` -/
 
-/-- no two distinct materials of the pool can be `==` -/
-def NoCloneM (st : St) : Prop := ∀ a b, st.mshape a = st.mshape b → a = b
-
 theorem setAdd_fold_spec (eq : ObjId → ObjId → Bool) (hrefl : ∀ o, eq o o = true) : ∀ (l acc : List ObjId),
     (∀ x ∈ acc, x ∈ l.foldl (setAdd eq) acc) ∧ (∀ o ∈ l, ∃ x ∈ l.foldl (setAdd eq) acc, eq o x = true) := by
   intro l
@@ -997,10 +964,9 @@ theorem collect_spec (eq : ObjId → ObjId → Bool) (hrefl : ∀ o, eq o o = tr
     surface in `cell.surfaces` is a member of `problem.surfaces` (what `write_to_file` iterates for the surface
     block) and is linked; the transform of such a surface is a member of `problem.transforms`, is in
     `data_inputs` (what `write_to_file` iterates for the data block) and is linked; the cell's material is a member
-    of `problem.materials`, is in `data_inputs` and is linked.  Identity statement: needs `NoClones` / `NoCloneM`
-    (with distinct-but-equal objects only one of them becomes a member: known finding C16-F1c). -/
-theorem C16_children (st : St) (hok : (addCellChildren st).2 = none) (hs : NoClones st) (hm : NoCloneM st)
-    (c : ObjId) (hc : c ∈ st.cells) :
+    of `problem.materials`, is in `data_inputs` and is linked.  Object identity throughout, no side condition
+    (repaired code: collected by identity; two objects with one number make the call raise, `C16_children_conflict`). -/
+theorem C16_children (st : St) (hok : (addCellChildren st).2 = none) (c : ObjId) (hc : c ∈ st.cells) :
     c ∈ (addCellChildren st).1.cells ∧
     (∀ s ∈ ((addCellChildren st).1.cellOf c).surfs,
       s ∈ (addCellChildren st).1.surfaces ∧ (addCellChildren st).1.slink s = true ∧
@@ -1016,50 +982,42 @@ theorem C16_children (st : St) (hok : (addCellChildren st).2 = none) (hs : NoClo
   · rename_i hcond
     rw [if_neg hcond]
     dsimp only
-    have hS := (collect_spec (surfEq st) (fun o => by simp [surfEq]) (fun c => (st.cellOf c).surfs) st.cells st.surfaces).2 c hc
-    have hT := (collect_spec (fun x y => x == y) (fun o => by simp)
+    have hid : ∀ o : ObjId, (fun x y : ObjId => x == y) o o = true := fun o => by simp
+    have hS := (collect_spec (fun x y => x == y) hid (fun c => (st.cellOf c).surfs) st.cells st.surfaces).2 c hc
+    have hT := (collect_spec (fun x y => x == y) hid
       (fun c => (st.cellOf c).surfs.filterMap st.strans) st.cells st.transforms).2 c hc
-    have hM := (collect_spec (matEq st) (fun o => by simp [matEq]) (fun c => (st.cellOf c).mat.toList) st.cells st.materials).2 c hc
+    have hM := (collect_spec (fun x y => x == y) hid (fun c => (st.cellOf c).mat.toList) st.cells st.materials).2 c hc
     refine ⟨hc, fun s hsm => ?_, fun m hmat => ?_⟩
     · obtain ⟨x, hx, he⟩ := hS s hsm
-      have hxe : s = x := by
-        unfold surfEq at he
-        simp only [Bool.and_eq_true, beq_iff_eq] at he
-        exact hs _ _ he.2
+      have hxe : s = x := by simpa using he
       subst hxe
       refine ⟨(mem_sortByNum _ _ _).mpr hx, by simp [hx], fun t ht => ?_⟩
       obtain ⟨y, hy, hey⟩ := hT t (List.mem_filterMap.mpr ⟨s, hsm, ht⟩)
       have : t = y := by simpa using hey
       subst this
       refine ⟨(mem_sortByNum _ _ _).mpr hy, ?_, by simp [hy]⟩
-      obtain ⟨z, hz, hez⟩ := (setAdd_fold_spec (fun x y => x == y) (fun o => by simp) _ st.dataT).2 t hy
+      obtain ⟨z, hz, hez⟩ := (setAdd_fold_spec (fun x y => x == y) hid _ st.dataT).2 t hy
       have : t = z := by simpa using hez
       subst this
       exact hz
     · obtain ⟨x, hx, he⟩ := hM m (by simp [hmat])
-      have hxe : m = x := by
-        unfold matEq at he
-        simp only [Bool.and_eq_true, beq_iff_eq] at he
-        exact hm _ _ he.2
+      have hxe : m = x := by simpa using he
       subst hxe
       refine ⟨(mem_sortByNum _ _ _).mpr hx, ?_, by simp [hx]⟩
-      obtain ⟨z, hz, hez⟩ := (setAdd_fold_spec (matEq st) (fun o => by simp [matEq]) _ st.dataM).2 m hx
-      have : m = z := by
-        unfold matEq at hez
-        simp only [Bool.and_eq_true, beq_iff_eq] at hez
-        exact hm _ _ hez.2
+      obtain ⟨z, hz, hez⟩ := (setAdd_fold_spec (fun x y => x == y) hid _ st.dataM).2 m hx
+      have : m = z := by simpa using hez
       subst this
       exact hz
 
 /-- … and against the forward links of the *geometry* (with the containment invariant): every surface the
     geometry of a cell of the problem uses is a member of `problem.surfaces` and linked afterwards. -/
 theorem C16_children_geometry (st : St) (hok : (addCellChildren st).2 = none) (hi : InvContain st)
-    (hs : NoClones st) (hm : NoCloneM st) (c : ObjId) (hc : c ∈ st.cells) (g : HS)
+    (c : ObjId) (hc : c ∈ st.cells) (g : HS)
     (hg : (st.cellOf c).geom = some g) (s : ObjId) (hsg : s ∈ g.surfs) :
     s ∈ (addCellChildren st).1.surfaces ∧ (addCellChildren st).1.slink s = true := by
   have hsame := same_step st .addCellChildren trivial
-  have h := (C16_children st hok hs hm c hc).2.1 s (by
-    have : ((addCellChildren st).1.cellOf c).surfs = (st.cellOf c).surfs := (hsame.2 c).2.1
+  have h := (C16_children st hok c hc).2.1 s (by
+    have : ((addCellChildren st).1.cellOf c).surfs = (st.cellOf c).surfs := (hsame c).2.1
     rw [this]; exact (hi c g hg).2.1 s hsg)
   exact ⟨h.1, h.2.1⟩
 
@@ -1073,10 +1031,6 @@ theorem C16_children_conflict (st : St) (h : (addCellChildren st).2 ≠ none) : 
 
 /-- non-vacuity: a cell from scratch with a new surface and a new material; afterwards both are members,
     linked, and the material is in `data_inputs` -/
-example : NoCloneM (demo false) := by
-  intro a b hab
-  simpa [demo, St.blank] using hab
-
 example :
     let st := run (demo false) [.append .cell 0, .setGeometry 0 (.leaf false 1 true none), .setMaterial 0 (some 2)]
     (addCellChildren st).2 = none ∧ (addCellChildren st).1.surfaces = [1] ∧ (addCellChildren st).1.dataM = [2] ∧
